@@ -1,7 +1,7 @@
 """Boundary recorder for ModeDReader / DataReadout."""
 from __future__ import annotations
 
-from vf.mon import clock
+from vf.mon import clock, containers
 
 
 POISON = object()  # appended by the monitor to every list that read() returned
@@ -41,19 +41,40 @@ def observe(readout) -> dict:
     }
 
 
+BYSTANDER_SCRIPT = (b"/ISk5\\2M", b"T382-1000\r\n", b"\r\n1-0:1.8.0(0001", b"23.456*kWh)\r\n", b"!", b"12", b"AB\r\n", b"/", b"XYZ\r", b"\n!\r\n", b"/KFM5KAIFA-METER\r\n\r\n", b"0-0:1.0.0(", b"x" * 300,
+                    b"\n/AB", b"\xf9\n", b"!0000\r\n")
+_runs = 0
+
+
 def run(chunks, reader=None, states: set | None = None):
     """Feed all chunks; returns (observations, exception or None, index of the chunk that raised)."""
+    global _runs
+    _runs += 1
     reader = reader or new_reader()
+    # every third execution another reader object is used between the calls: readers are independent objects
+    bystander = new_reader() if _runs % 3 == 0 else None
+    by_i = _runs
     out = []
     kept = []
     err = (None, None)
+    usable = containers.probe("p1", new_reader, b"/ISk5\\2MT382-1000\r\n\r\n1-0:1.8.0(000123.456*kWh)\r\n!\r\n")
     for i, ch in enumerate(chunks):
         clock.tick()
+        if bystander is not None:
+            by_i += 1
+            try:
+                bystander.read(BYSTANDER_SCRIPT[by_i % len(BYSTANDER_SCRIPT)])
+            except Exception:
+                pass  # not the object under observation
+            containers.used["calls_interleaved_with_another_reader_object"] = containers.used.get("calls_interleaved_with_another_reader_object", 0) + 1
+        lent, release = containers.lend(ch, usable)
         try:
-            msgs = reader.read(ch)
+            msgs = reader.read(lent)
         except Exception as ex:
             err = (ex, i)
             break
+        finally:
+            release()  # the caller's buffer is reused as soon as read() has returned
         poisoned = False
         for m in msgs:
             if m is POISON:
